@@ -1,7 +1,8 @@
 #!/bin/bash
-# runs every thorough check in turn; prints one summary line per property (used for the pre-hand-in sweep)
+# runs thorough checks in turn (all, or the ones named on the command line); one summary line per property
 cd "$(dirname "$0")"
-for p in C01 C02 C03 C04 C05 C06 C07 C08 C09 C10 C11 C12 C13 C14 C15 C16 C17 C18 C19 C20; do
+LIST="${@:-C01 C02 C03 C04 C05 C06 C07 C08 C09 C10 C11 C12 C13 C14 C15 C16 C17 C18 C19 C20}"
+for p in $LIST; do
   ./check $p thorough > /var/tmp/thorough-$p.log 2>&1; rc=$?
   echo "$p rc=$rc $(grep 'thorough seed' /var/tmp/thorough-$p.log | tail -1 | cut -c1-170)"
   if [ $rc -ne 0 ]; then grep "VIOLATION-DETAIL\|INCONCLUSIVE\|BUILD" /var/tmp/thorough-$p.log | cut -c1-600 | head -5; fi
